@@ -303,8 +303,13 @@ let rec run_case (kind : string) (body : sexp list) : string * string =
       (* (share FORM SRC share|publish (ops OP...)) *)
       let src = (match List.nth body 1 with Atom "hot" -> ShHot | c -> ShCold (List.map ev_of (args c))) in
       let m = (match atom (List.nth body 2) with "publish" -> MPublish | _ -> MShare) in
+      let consumed = ref false in
       let h = List.map (fun op -> match head op with
           | "sub" -> ShSub
+          (* the published observable itself is subscribed: a subscriber joins, and the value is consumed, so a later
+             connect() cannot be called (a no-op operation stands for it) *)
+          | "subself" -> consumed := true; ShSub
+          | "connect" when !consumed -> ShUnsub (nat_of_int 999)
           | "unsub" -> ShUnsub (narg (List.hd (args op)))
           | "src" -> ShSrc (ev_of (List.hd (args op)))
           | "connect" -> ShConnect
